@@ -7,6 +7,12 @@
 (*   tier 1: one case, <= 2 alternatives (ordered) from PoolA, every body  *)
 (*   tier 2: two cases, <= 2 alternatives from PoolB, six body schemes     *)
 (*   tier 3: three cases, alternative lists AltsC, six body schemes        *)
+(*   tier 4: "position by position": array patterns of length 2 and 3      *)
+(*           whose every position holds in turn a literal, an identifier,  *)
+(*           an array pattern (to depth 2), alone or followed by another   *)
+(*           alternative, with and without a later catch-all case, against *)
+(*           subjects whose every position holds in turn a scalar, an      *)
+(*           array, an object (SubjectsP)                                  *)
 (* Bodies may read names bound only by an alternative / case that does not *)
 (* match (tier 1: every such name; tiers 2, 3: scheme G): the value must   *)
 (* be the program's global.                                                *)
@@ -21,6 +27,16 @@ N1 == Num(1)  N2 == Num(2)  N5 == Num(5)  SA == Str("a")
 
 Subjects == << N1, N2, SA, Null, Bool(TRUE), Arr(<<>>), Arr(<<N1>>), Arr(<<N1, N2>>), Arr(<<N2, N5>>),
                Arr(<<Arr(<<N1>>), N2>>) >>
+\* a container AFTER a scalar: a pattern that fails at the first position must not look at it
+\* (tier 1: every ordered pair of alternatives meets these two as well)
+SubjectsLate == << Arr(<<N2, Arr(<<N1>>)>>), Arr(<<N2, Obj>>) >>
+\* tier 4: scalar / array / object at every position of arrays of length 2 and 3, nested to depth 3
+SubjectsP == << Arr(<<N2, Arr(<<N1>>)>>), Arr(<<N1, Arr(<<N1>>)>>), Arr(<<N2, Obj>>), Arr(<<N1, Obj>>),
+                Arr(<<N5, Arr(<<N1, N2>>)>>), Arr(<<N1, Arr(<<N5, Arr(<<N1>>)>>)>>), Arr(<<N2, Arr(<<N5, Obj>>)>>),
+                Arr(<<N1, Arr(<<N1, Obj>>)>>),
+                Arr(<<N1, N2, N5>>), Arr(<<N2, N2, Arr(<<N1>>)>>), Arr(<<N1, N5, Obj>>), Arr(<<N1, Arr(<<N1>>), Arr(<<N1>>)>>),
+                Arr(<<N1, N2>>), Arr(<<N2, N5>>) >>
+SubjectsOf(t) == IF t = 1 THEN Subjects \o SubjectsLate ELSE IF t = 4 THEN SubjectsP ELSE Subjects
 
 \* ---- pattern pools.  Identifier names are fixed by position: "x" top level or
 \* first element, "y" second element, "u" inside a nested array.
@@ -56,6 +72,21 @@ AltsC == IF Big
                 <<PArr(<<>>), Pux>>, <<PLit(Null), PLit(N1)>>, <<P2y, Px2>> }
          ELSE AltsCq
 
+\* ---- tier 4: the position pool
+E1 == {PLit(N1), PLit(N2), PId("x")}
+In2 == {PArr(<<PLit(N1)>>), PArr(<<PId("u")>>), PArr(<<PLit(N1), PLit(N2)>>), PArr(<<PId("u"), PLit(N2)>>),
+        PArr(<<PLit(N1), PId("u")>>)}
+E2 == {PLit(N1), PLit(N2), PId("y")} \cup In2
+L2 == {PArr(<<a, b>>) : a \in E1, b \in E2}
+L3 == {PArr(<<a, b, c>>) : a \in {PLit(N1), PId("x")}, b \in {PLit(N2), PId("y"), PArr(<<PLit(N1)>>)},
+                           c \in {PLit(N1), PLit(N5), PId("u")}}
+PoolP == L2 \cup L3
+Pxyu == PArr(<<PId("x"), PId("y"), PId("u")>>)
+CatchP == {Pxy, Pxyu, PX}
+AltsP == {<<p>> : p \in PoolP} \cup {<<p, q>> : p \in PoolP, q \in CatchP}
+         \cup (IF Big THEN {pq \in PoolP \X PoolP : pq[1] # pq[2]} ELSE {})
+SchemesP == {"M", "B", "V", "G"}
+
 \* names bound by every alternative of a case / by some alternative of a case
 Common(alts) == {n \in {"x", "y", "u"} : \A i \in 1..Len(alts) : n \in PatNames(alts[i])}
 AnyName(alts) == UNION {PatNames(alts[i]) : i \in 1..Len(alts)}
@@ -90,7 +121,7 @@ Case(alts, body) == [alts |-> alts, body |-> body]
 VARIABLES tier, first, cases, done
 vars == <<tier, first, cases, done>>
 
-FirstLists(t) == IF t = 1 THEN AltLists(PoolA) ELSE IF t = 2 THEN AltsB ELSE AltsC
+FirstLists(t) == IF t = 1 THEN AltLists(PoolA) ELSE IF t = 2 THEN AltsB ELSE IF t = 3 THEN AltsC ELSE AltsP
 
 Init == /\ tier \in Tiers
         /\ first \in FirstLists(tier)
@@ -108,6 +139,12 @@ Next == /\ ~done /\ done' = TRUE /\ UNCHANGED <<tier, first>>
                    cases' = <<Case(first, SchemeBody(sch, 1, first, {})),
                               Case(a2, SchemeBody(sch, 2, a2, AnyName(first))),
                               Case(a3, SchemeBody(sch, 3, a3, AnyName(first) \cup AnyName(a2)))>>
+           \/ /\ tier = 4       \* alone (nothing matches: null), or with a later catch-all case
+              /\ \E sch \in SchemesP :
+                   \/ cases' = <<Case(first, SchemeBody(sch, 1, first, {}))>>
+                   \/ \E c \in CatchP :
+                        cases' = <<Case(first, SchemeBody(sch, 1, first, {})),
+                                   Case(<<c>>, SchemeBody(sch, 2, <<c>>, AnyName(first)))>>
 
 \* ------------------------------------------------------------------------
 \* Laws (for the current case list, every subject, every reading)
@@ -165,7 +202,24 @@ BindLaw(v, rd) ==
 ReadingLaw(v) ==
   (\A k \in 1..Len(cases) : \A i \in 1..Len(cases[k].alts) : ~Touchy(v, cases[k].alts[i]))
     => /\ MatchExpr(v, cases, "short", {}) = MatchExpr(v, cases, "lenient", {})
+       /\ MatchExpr(v, cases, "decided", {}) = MatchExpr(v, cases, "lenient", {})
        /\ MatchExpr(v, cases, "eager", {}) = MatchExpr(v, cases, "lenient", {})
+
+\* "matches ... position by position": an array pattern matches exactly when every position matches; a position
+\* that does not match (all before it matching, or - "decided" - anywhere) makes the pattern a non-match whatever
+\* the later positions hold: no admitted reading raises an error there.  (The reading "eager" breaks this law.)
+RECURSIVE PosLaw(_, _, _)
+PosLaw(v, p, rd) ==
+  (p.t = "arr" /\ v.k = "arr" /\ Len(v.a) = Len(p.items)) =>
+    LET n == Len(p.items)
+        r == [i \in 1..n |-> MatchPat(v.a[i], p.items[i], rd).m]
+        whole == MatchPat(v, p, rd).m
+    IN /\ (whole = "yes") <=> (\A i \in 1..n : r[i] = "yes")
+       /\ (\E i \in 1..n : r[i] = "no" /\ \A j \in 1..(i - 1) : r[j] = "yes") => whole = "no"
+       /\ (rd = "decided" /\ \E i \in 1..n : r[i] = "no") => whole = "no"
+       /\ whole = "err" => \E i \in 1..n : r[i] = "err" /\ \A j \in 1..(i - 1) : r[j] # "no"
+       /\ \A i \in 1..n : PosLaw(v.a[i], p.items[i], rd)
+PositionLaw(v, rd) == \A k \in 1..Len(cases) : \A i \in 1..Len(cases[k].alts) : PosLaw(v, cases[k].alts[i], rd)
 
 \* the deviation changes the outcome only in its class: a failing array pattern
 \* that is not the last alternative of its case
@@ -178,11 +232,12 @@ CatchAllLaw(v, rd) ==
   cases[1].alts[1].t = "id" => MatchExpr(v, cases, rd, {}).sel = 1
 
 Laws == done =>
-  \A s \in 1..Len(Subjects) :
-    /\ ReadingLaw(Subjects[s])
+  LET Subj == SubjectsOf(tier) IN
+  \A s \in 1..Len(Subj) :
+    /\ ReadingLaw(Subj[s])
     /\ \A rd \in Readings :
-         /\ FirstMatchLaw(Subjects[s], rd) /\ MarkerLaw(Subjects[s], rd) /\ BindLaw(Subjects[s], rd)
-         /\ DevLaw(Subjects[s], rd) /\ CatchAllLaw(Subjects[s], rd)
+         /\ FirstMatchLaw(Subj[s], rd) /\ MarkerLaw(Subj[s], rd) /\ BindLaw(Subj[s], rd)
+         /\ DevLaw(Subj[s], rd) /\ CatchAllLaw(Subj[s], rd) /\ PositionLaw(Subj[s], rd)
 
 \* ------------------------------------------------------------------------
 \* Tokens
@@ -202,6 +257,7 @@ ValToks(v) ==
     [] v.k = "null" -> <<"null">>
     [] v.k = "bool" -> <<IF v.n = 1 THEN "true" ELSE "false">>
     [] v.k = "arr" -> <<"[">> \o Join([i \in 1..Len(v.a) |-> ValToks(v.a[i])]) \o <<"]">>
+    [] v.k = "obj" -> <<"%o">>        \* source {z: 1}, printed {"z": 1}
 
 RECURSIVE PatToks(_)
 PatToks(p) ==
@@ -228,9 +284,11 @@ Vec == done =>
   Emit([tier |-> tier,
         cases |-> [k \in 1..Len(cases) |-> CaseToks(k)],
         blocks |-> [k \in 1..Len(cases) |-> IsBlock(cases[k].body)],
-        runs |-> [s \in 1..Len(Subjects) |->
-           LET v == Subjects[s]
+        runs |-> [s \in 1..Len(SubjectsOf(tier)) |->
+           LET v == SubjectsOf(tier)[s]
                exp == {Obs(MatchExpr(v, cases, rd, {})) : rd \in Readings}
                dev == {Obs(MatchExpr(v, cases, rd, Dev)) : rd \in Readings} \ exp
-           IN [subj |-> ValToks(v), exp |-> exp, dev |-> dev]]])
+           IN [subj |-> ValToks(v), exp |-> exp, dev |-> dev,
+               \* does this run tell a matcher that compares every position (the reading not admitted) from the admitted ones
+               eager |-> Obs(MatchExpr(v, cases, "eager", {})) \notin exp]]])
 =============================================================================
